@@ -4,6 +4,7 @@ package main
 
 import (
 	"fmt"
+	"go/token"
 	"go/types"
 	"regexp"
 	"sort"
@@ -252,5 +253,174 @@ func c20r6(c *Ctx) {
 			c.FailX(Oblig{Rule: rule, Func: FuncName(fn), Construct: construct, Pos: c.P.Pos(fn.Pos()), Kind: "violation",
 				Detail: "a path through the merge never looks at " + f + " of the merged-in account (" + w + " is reachable without reading it): on that path the merge cannot " + law[f]})
 		}
+	}
+}
+
+// ---------------------------------------------------------------- R7: what the merged transfer list is made of
+
+// c20r7: "appends only the new output transfers": whatever is stored into the result's transfer list consists of the
+// result's own list followed by the tail of the merged-in list that starts at the own list's length — by append on the own
+// list, or on a fresh slice that was filled by copy from the own list. Elements of the merged-in list from any other
+// position (a copy of its head over the own transfers, the whole list) break the law.
+func c20r7(c *Ctx) {
+	const rule = "C20-R7"
+	c.Rule(rule, "the merged transfer list is the own list followed by the merged-in list's tail from the own length on", 1)
+	fn := c.P.FuncByName("(*vmcommon.OutputAccount).MergeOutputAccounts")
+	if fn == nil || len(fn.Params) != 2 {
+		c.Anchor(rule, "(*vmcommon.OutputAccount).MergeOutputAccounts")
+		return
+	}
+	ownT := "*P:" + paramName(fn.Params[0]) + ".OutputTransfers"
+	parT := "*P:" + paramName(fn.Params[1]) + ".OutputTransfers"
+	ownLen := "len(" + ownT + ")"
+	n := 0
+	isStore := func(in ssa.Instruction) (string, bool) {
+		if st, ok := in.(*ssa.Store); ok {
+			if fa, ok := st.Addr.(*ssa.FieldAddr); ok && isFieldOf(fa, "OutputAccount", "OutputTransfers") {
+				return "store", true
+			}
+		}
+		return "", false
+	}
+	for _, s := range c.P.EffectSitesBelow(c.P.Env(fn), "c20otstore", isStore) {
+		st := s.In.(*ssa.Store)
+		e := s.Env
+		if e.Term(st.Addr.(*ssa.FieldAddr).X) != "P:"+paramName(fn.Params[0]) {
+			continue // not the result's list (R3 deals with writes elsewhere)
+		}
+		n++
+		var origin func(v ssa.Value, depth int, seen map[ssa.Value]bool) []string
+		origin = func(v ssa.Value, depth int, seen map[ssa.Value]bool) []string {
+			if depth > 12 {
+				return []string{"?"}
+			}
+			if seen[v] {
+				return nil
+			}
+			seen[v] = true
+			defer delete(seen, v)
+			t := e.Term(v)
+			if t == ownT {
+				return []string{"own"}
+			}
+			if t == parT {
+				return []string{"the whole merged-in list"}
+			}
+			switch x := v.(type) {
+			case *ssa.Const:
+				if x.Value == nil {
+					return nil
+				}
+			case *ssa.Slice:
+				xt := e.Term(x.X)
+				switch {
+				case xt == parT:
+					if x.Low != nil && x.High == nil && e.LE(x.Low).String() == ownLen {
+						return []string{"new-tail"}
+					}
+					lo := "0"
+					if x.Low != nil {
+						lo = e.LE(x.Low).String()
+					}
+					return []string{"the merged-in list from position " + lo}
+				case xt == ownT:
+					if x.Low == nil && x.High == nil {
+						return []string{"own"}
+					}
+					return []string{"a part of the own list"}
+				}
+				if al, ok := x.X.(*ssa.Alloc); ok && al.Referrers() != nil {
+					// a literal: its elements
+					var out []string
+					for _, ref := range *al.Referrers() {
+						if ia, ok := ref.(*ssa.IndexAddr); ok && ia.Referrers() != nil {
+							for _, r2 := range *ia.Referrers() {
+								if es, ok := r2.(*ssa.Store); ok {
+									out = append(out, origin(es.Val, depth+1, seen)...)
+								}
+							}
+						}
+					}
+					return out
+				}
+				return origin(x.X, depth+1, seen)
+			case *ssa.UnOp:
+				// an element of the merged-in list: new only from the own length on
+				if ia, ok := x.X.(*ssa.IndexAddr); ok && x.Op == token.MUL && e.Term(ia.X) == parT {
+					if ph, ok := ia.Index.(*ssa.Phi); ok {
+						for _, ed := range ph.Edges {
+							if bo, isStep := ed.(*ssa.BinOp); isStep && bo.Op == token.ADD && bo.X == ssa.Value(ph) {
+								continue
+							}
+							if e.LE(ed).String() != ownLen {
+								return []string{"an element of the merged-in list at a position that does not start at the own length"}
+							}
+						}
+						return []string{"new-tail"}
+					}
+					return []string{"element " + e.LE(ia.Index).String() + " of the merged-in list"}
+				}
+			case *ssa.MakeSlice:
+				var out []string
+				filled := false
+				if x.Referrers() != nil {
+					for _, ref := range *x.Referrers() {
+						if call, ok := ref.(*ssa.Call); ok {
+							if bi, ok := call.Call.Value.(*ssa.Builtin); ok && bi.Name() == "copy" && call.Call.Args[0] == ssa.Value(x) {
+								filled = true
+								out = append(out, origin(call.Call.Args[1], depth+1, seen)...)
+							}
+						}
+					}
+				}
+				if !filled && e.LE(x.Len).String() != "0" {
+					out = append(out, "empty transfers (a fresh slice of non-zero length that is never filled)")
+				}
+				return out
+			case *ssa.Call:
+				if bi, ok := x.Call.Value.(*ssa.Builtin); ok && bi.Name() == "append" {
+					return append(origin(x.Call.Args[0], depth+1, seen), origin(x.Call.Args[1], depth+1, seen)...)
+				}
+			case *ssa.Phi:
+				var out []string
+				for _, ed := range x.Edges {
+					out = append(out, origin(ed, depth+1, seen)...)
+				}
+				return out
+			}
+			return []string{"? (" + t + ")"}
+		}
+		os := uniq(origin(st.Val, 0, map[ssa.Value]bool{}))
+		sort.Strings(os)
+		construct := "store " + e.Term(st.Addr) + " = " + e.Term(st.Val)
+		hasOwn := false
+		var bad, unknown []string
+		for _, o := range os {
+			switch {
+			case o == "own":
+				hasOwn = true
+			case o == "new-tail":
+			case strings.HasPrefix(o, "?"):
+				unknown = append(unknown, o)
+			default:
+				bad = append(bad, o)
+			}
+		}
+		switch {
+		case len(bad) > 0:
+			c.FailX(Oblig{Rule: rule, Func: FuncName(s.In.Parent()), Construct: construct, Pos: c.P.InstrPos(st), Kind: "violation",
+				Detail:   "the merged transfer list takes " + strings.Join(bad, " and ") + ": transfers the result already had are replaced, or transfers it already had are appended again",
+				Expected: "own list ++ merged-in list[len(own list):]"})
+		case len(unknown) > 0:
+			c.Fail(rule, "undecided", FuncName(s.In.Parent()), construct, c.P.InstrPos(st), "cannot tell what the stored list consists of: "+strings.Join(unknown, ", "))
+		case !hasOwn:
+			c.FailX(Oblig{Rule: rule, Func: FuncName(s.In.Parent()), Construct: construct, Pos: c.P.InstrPos(st), Kind: "violation",
+				Detail: "the merged transfer list does not start with the result's own transfers: they are lost", Expected: "own list ++ merged-in list[len(own list):]"})
+		default:
+			c.OK(rule, FuncName(s.In.Parent()), construct, c.P.InstrPos(st), "own list followed by the merged-in tail from the own length on")
+		}
+	}
+	if n == 0 {
+		c.Anchor(rule, "a store into the result's OutputTransfers below MergeOutputAccounts")
 	}
 }
